@@ -237,7 +237,7 @@ theorem refuse_touches_only_rejects (o : Options) (outputFile : Bytes) (p : Patc
         obtain ⟨d, hd, e⟩ := hq
         exact ⟨d, hd, by rw [e, absPath_cwd c2]⟩
       have c3 : s3.cwd = s.cwd := h3.1.trans c2
-      refine touches_bind (touches_openRejects _ s3 (.inl (absPath_cwd c3 _))) fun _ s4 h4 => ?_
+      refine touches_bind (touches_openRejects _ _ s3 (.inl (absPath_cwd c3 _))) fun _ s4 h4 => ?_
       have c4 : s4.cwd = s.cwd := h4.1.trans c3
       split
       · exact Touches.refl s4
@@ -609,6 +609,14 @@ def renS : DState :=
 #guard (runPatch defaultOptions renS).2.fs.lookup [100] == some (.dir 0o755)
 #guard (runPatch defaultOptions renS).2.out.contains .notRegular
 
+/-- `is_symlink(mode)` compares all of the file type bits (D102): mode 120000 is a symbolic link, mode 160000 — a git submodule, which has
+    both bits of 120000 set — is not, nor is a regular file or a directory -/
+theorem symlink_mode_is_link : isSymlinkMode 0o120000 = true := by decide
+theorem submodule_mode_is_no_link : isSymlinkMode 0o160000 = false := by decide
+theorem regular_mode_is_no_link : isSymlinkMode 0o100644 = false := by decide
+theorem directory_mode_is_no_link : isSymlinkMode 0o040000 = false := by decide
+
+#print axioms submodule_mode_is_no_link
 #print axioms readonly_fail_untouched
 #print axioms fixPermissions_reads_only
 #print axioms section_chmod_late
